@@ -216,6 +216,9 @@ def get_attr(st, obj, attr, n=None):
         if c is None and st.fn is not None and st.fn.cls:
             c = R.find_contract(cls, attr)
         if c is not None:
+            if getattr(c, 'is_property', False):
+                from . import calls
+                return calls.call_contract(st, c, [obj], {}, n)
             return Val(T.FN, FnV('bound', attr, recv=obj, cls=cls))
         cc = B.class_constant(st, cls, attr)
         if cc is not None:
